@@ -755,17 +755,17 @@ def plan(tier):
             P(p=p, A=('exact', 7, 3), B=('alpha', 4, 2), both=True)
             P(p=p, A=('exact', 4, 3), B=('exact', 4, 3))
     # powmod
-    W = lambda **kw: out.append(dict(dict(what='powmod', lo=-4, hi=17), **kw))
+    W = lambda **kw: out.append(dict(dict(what='powmod', lo=-7, hi=17), **kw))
     W(p=2, A=('all', 5 if q else 6), B=('all', 5 if q else 6))
     W(p=3, A=('all', 3), B=('all', 3))
     if q:
-        W(p=5, A=('all', 2), B=('all', 2), lo=-3, hi=12)
+        W(p=5, A=('all', 2), B=('all', 2), lo=-5, hi=12)
         W(p=7, A=('all', 2), B=('alpha', 3, 2))
-        W(p=7, A=('all', 1), B=('all', 2), lo=-2, hi=9)
+        W(p=7, A=('all', 1), B=('all', 2), lo=-5, hi=9)
     else:
         W(p=5, A=('all', 2), B=('all', 2))
         W(p=7, A=('all', 2), B=('all', 2))
-        W(p=5, A=('all', 3), B=('exact', 0, 3), lo=-2, hi=9)
+        W(p=5, A=('all', 3), B=('exact', 0, 3), lo=-5, hi=9)
     for p in BIG:
         W(p=p, A=('alpha', 4 if q else 7, 2), B=('alpha', 4, 2))
     # triples
